@@ -108,6 +108,13 @@ check("C16",
   "Frontier capped at 3000 states per level (reported, exhaustive=false when hit). Hook H3 exposes the private scheduler fields for the digest only.",
   "DESIGN.md §3 C16")
 
+check("C17",
+  "explicit-state breadth-first search over Dolev-Yao attacker actions on the real handshake handlers of two real nodes, symbolic renaming of challenges",
+  "model_checking",
+  "Two real FullNodes (S accepts two connections, C dials S) and an attacker who owns one connection to S and controls the wire between C and S: deliver or drop queued messages, replay any observed message to S (on either connection) or to C, send a challenge with any observed or a fresh value, send a response signed with its own key over any observed challenge with a compatible or incompatible version. All action sequences to depth 5 (quick) / 6 (thorough); challenges are random per run and named by order of observation in actions and digests. After every step, for every acceptance (status change or PeerHandshakeComplete event): the key is not the node's own, the response's signature verifies under that key over the challenge outstanding on that very connection, that (connection, challenge) was not accepted before, the version is compatible, a challenge was outstanding at all; no connected peer and no address-map entry changes because of a message on another connection unless that message is itself a valid authentication by the same key; no handler aborts.",
+  "Signatures are unforgeable; one attacker key. Pure relay of a genuine answer to a genuine challenge (no channel binding in the protocol) is not flagged.",
+  "DESIGN.md §3 C17")
+
 NOT_YET = "check not built yet in this session (work in progress, see DESIGN.md §8 build order); nothing is claimed for it"
 NA = {}
 
